@@ -954,6 +954,17 @@ Fixpoint count_monitor (ss_all : list step) (before : list Z) (tr : list tobs) :
       end
   end.
 
+(* The builder's own rule for leader targets, read off a plan: outside the forced-leader variant every TransferLeader step
+   goes to a store the cluster knows and that accepts leaders (allowLeader's store checks; s_leader_ok abstracts
+   StoreStateFilter{TransferLeader} + the reject-leader label property) - also when the store led the region before the plan
+   moved the leader away.  Exempt: the leader the caller asked for when it is where the leader already was. *)
+Definition store_takes_leader (cl : cluster) (st : Z) : bool :=
+  match get_store cl st with Some s => s_leader_ok s | None => false end.
+Definition leader_stores_ok (cl : cluster) (origin_leader asked : Z) (force : bool) (ss : list step) : bool :=
+  force || forallb (fun s => match s with
+                             | TransferLeader _ t => store_takes_leader cl t || ((t =? asked) && (t =? origin_leader))
+                             | _ => true end) ss.
+
 (* Monitor: the property evaluated on the plan the IMPLEMENTATION produced. *)
 Definition plan_monitor (c : ccase) : option string :=
   match c with
@@ -961,7 +972,9 @@ Definition plan_monitor (c : ccase) : option string :=
       match prepared i with
       | Some b => match plan_check (goal_of b) (i_region i) ss with
                   | Some v => Some (sapp "C08:" (sapp (path_class b) (sapp ":" (sapp v (unlike_model c)))))
-                  | None => None
+                  | None =>
+                      if leader_stores_ok (b_cluster b) (leader (i_region i)) (b_tleader b) (b_force b) ss then None
+                      else Some (sapp "C08:" (sapp (path_class b) (sapp ":leader-to-store-that-rejects-leaders:TransferLeader" (unlike_model c))))
                   end
       | None =>
           (* the model refuses to build (e.g. "target leader is not allowed") but the implementation produced a plan:
